@@ -69,6 +69,8 @@ async def check_case(case, rec, ctx):
     records, ledger, dirs, d = await C.run_clean_history(case, ctx, on_invocation)
     try:
         rec.event(f"deleted={min(state['deleted'], 3)}")
+        for kind, _path in ledger.observations:
+            rec.event("observed:" + kind)
         if state["deleted"] and state["refused"]:
             rec.mark_nontrivial([s["spec"] for s in case["stages"]],
                                 sample={"edits": [s["edit"] for s in case["stages"]],
